@@ -86,6 +86,18 @@ def h_mask(B, n=4, p=3, cols=(), rows=(), k=2, flags=None, layout="2d", rot=None
         if tA is not None:
             tA = tA.sel(time=X.time.values[keepr])
             B.eq("transform(masked X) on remaining samples == scores", tA, sA.isel(time=keepr))
+        # other data (other sample labels, same missing features) passes through; the fitted scores keep labels, NaNs and values
+        Xn = da2d(B, "xn", 2, p, scoords=[100, 101])
+        mn = np.zeros((2, p), dtype=bool)
+        mn[:, cols] = True
+        tn = B.completes("transform(other samples, same missing features) runs", lambda: mA.transform(Xn.where(~xr.DataArray(mn, dims=Xn.dims, coords=Xn.coords))))
+        if tn is not None:
+            sA2 = mA.scores()
+            same_lab = list(sA2["time"].values) == list(sA["time"].values)
+            B.check("scores() after transform(other samples): still labelled with the fitted samples", same_lab, f"{list(sA2['time'].values)}")
+            if same_lab:
+                B.check("scores() after transform(other samples): NaN exactly at the fully missing samples", np.array_equal(_nanmask(sA2.transpose("mode", "time")), exp_s), "NaN pattern changed")
+                B.eq("scores() after transform(other samples): unchanged", sA2, sA)
 
 
 def h_mask_labels(B, n=4, p=3, cols=(1,), rows=(), k=2, fcoords=(0.0, 60.0, -120.0), scoords=(5, 3, 9, 1)):
